@@ -35,6 +35,7 @@ type C10Case struct {
 	Method  string `json:"method"` // debsign | dpkg-sig | rpm | apk
 	Key     string `json:"key"`    // key kind (see c10Keys)
 	Payload int    `json:"payload"`
+	BinSig  bool   `json:"binary_callback_signature,omitempty"` // debsign: the callback returns a binary (not armored) signature
 	Comp    string `json:"compression,omitempty"`
 	Via     string `json:"via"` // file | signfn
 	SigType string `json:"sig_type,omitempty"`
@@ -122,11 +123,13 @@ var c10PGPKeys = []string{"subkey-only-with-passphrase", "armored-with-passphras
 var c10APKKeys = []string{"encrypted-pem-padded-pass", "pkcs1", "pkcs8", "pkcs8-4096", "encrypted-pem", "encrypted-pem-general", "encrypted-pem-wrong", "pem-garbage"}
 
 // c10Payloads is the number of payload shapes (0 = empty).
-const c10Payloads = 6
+const c10Payloads = 7
 
 func c10Payload(i int) []model.Entry {
 	ts := c01Templates()
 	switch i {
+	case 6: // a payload member beyond any hashing window
+		return []model.Entry{{Src: "huge/noise.bin", Dst: "/opt/noise.bin"}, ts[0]}
 	case 4: // files on buffer boundaries, among them one of exactly 1 MiB
 		return []model.Entry{{Src: "sizes/s1048576.bin", Dst: "/opt/one-mib.bin"}, {Src: "sizes/s65536.bin", Dst: "/opt/s65536.bin"}, {Src: "sizes/s32769.bin", Dst: "/opt/s32769.bin"}}
 	case 5: // many small entries of every kind
@@ -298,6 +301,21 @@ func init() {
 							if !yield(C10Case{Format: m.f, Method: m.m, Key: "armored", Payload: pl, Comp: comp, Via: "signfn", FailJ: j}) {
 								return
 							}
+							// a key file configured next to the callback: the callback signs, and its failure is the failure
+							kf := "armored"
+							if m.f == "apk" {
+								kf = "pkcs1"
+							}
+							if comp == "" && (pl == 1 || pl == 4 || env.Thorough()) {
+								if !yield(C10Case{Format: m.f, Method: m.m, Key: kf, Payload: pl, Comp: comp, Via: "signfn+keyfile", FailJ: j}) {
+									return
+								}
+							}
+						}
+						if m.m == "debsign" {
+							if !yield(C10Case{Format: m.f, Method: m.m, Key: "armored", Payload: pl, Comp: comp, Via: "signfn", FailJ: -1, BinSig: true}) {
+								return
+							}
 						}
 					}
 				}
@@ -306,6 +324,9 @@ func init() {
 		Check: checkC10,
 	})
 }
+
+// viaFn: the case signs through the callback (with or without a key file configured next to it).
+func viaFn(c C10Case) bool { return strings.HasPrefix(c.Via, "signfn") }
 
 var c10PubName = "pubkey"
 
@@ -468,7 +489,7 @@ func checkC10(env *engine.Env, ci any) engine.Outcome {
 	rotPath := filepath.Join(env.Scratch, "rotating-key")
 	if c.Via == "file" && c.Rotate {
 		sigm["key_file"] = rotPath
-	} else if c.Via == "file" {
+	} else if c.Via == "file" || c.Via == "signfn+keyfile" {
 		sigm["key_file"] = keyPath(env, key.file)
 		if strings.HasPrefix(key.file, "GENPEM:") {
 			pass := strings.TrimPrefix(key.file, "GENPEM:")
@@ -574,7 +595,7 @@ func checkC10(env *engine.Env, ci any) engine.Outcome {
 	// signing callback route
 	var captured [][]byte
 	sentinel := errors.New("signer sentinel failure")
-	if c.Via == "signfn" {
+	if viaFn(c) {
 		ent, err := privEntity(env)
 		if err != nil {
 			out.HarnessError = err.Error()
@@ -589,7 +610,11 @@ func checkC10(env *engine.Env, ci any) engine.Outcome {
 			var sig bytes.Buffer
 			switch c.Method {
 			case "debsign":
-				err = openpgp.ArmoredDetachSign(&sig, ent, bytes.NewReader(b), &packet.Config{DefaultHash: crypto.SHA256})
+				if c.BinSig {
+					err = openpgp.DetachSign(&sig, ent, bytes.NewReader(b), &packet.Config{DefaultHash: crypto.SHA256})
+				} else {
+					err = openpgp.ArmoredDetachSign(&sig, ent, bytes.NewReader(b), &packet.Config{DefaultHash: crypto.SHA256})
+				}
 			case "dpkg-sig":
 				w, e := clearsign.Encode(&sig, ent.PrivateKey, &packet.Config{DefaultHash: crypto.SHA256})
 				if e != nil {
@@ -637,10 +662,10 @@ func checkC10(env *engine.Env, ci any) engine.Outcome {
 	if c.Method == "debsign" && c.SigType != "" && c.SigType != "origin" && c.SigType != "maint" && c.SigType != "archive" {
 		expectFail = true
 	}
-	if c.Via == "signfn" && c.FailJ >= 0 {
+	if viaFn(c) && c.FailJ >= 0 {
 		expectFail = true
 	}
-	out.Key = fmt.Sprintf("%s:%s:%s:%d:%s:%s:%s:%d:%v:%s:%s:err=%v", f, c.Method, c.Key, c.Payload, c.Comp, c.Via, c.SigType, c.FailJ, c.Rotate, c.SDE, c.KeyName, perr != nil)
+	out.Key = fmt.Sprintf("%s:%s:%s:%d:%s:%s:%s:%d:%v:%s:%s:err=%v", f, c.Method, c.Key, c.Payload, c.Comp, c.Via, c.SigType, c.FailJ, c.Rotate, c.SDE, c.KeyName+fmt.Sprint(c.BinSig), perr != nil)
 	if expectFail {
 		why := "signing cannot succeed"
 		if perr == nil {
@@ -652,7 +677,7 @@ func checkC10(env *engine.Env, ci any) engine.Outcome {
 			viol("sig:failure-untyped:"+c.Method+":"+failClass(c), "%s; Package returned %q which is not identifiable as *nfpm.ErrSigningFailure", why, perr)
 			return out
 		}
-		if c.Via == "signfn" && c.FailJ >= 0 {
+		if viaFn(c) && c.FailJ >= 0 {
 			if !errors.Is(perr, sentinel) && !errors.Is(sf.Err, sentinel) {
 				viol("sig:failure-loses-cause:"+c.Method, "the signing failure %q does not carry the signer's own error", perr)
 			}
@@ -711,7 +736,7 @@ func checkC10(env *engine.Env, ci any) engine.Outcome {
 				viol("sig:wrong-key-id:debsign", "signature issued by key %s, configured key_id %s", got, key.keyID)
 			}
 		}
-		if c.Via == "signfn" && (len(captured) != 1 || !bytes.Equal(captured[0], data)) {
+		if viaFn(c) && (len(captured) != 1 || !bytes.Equal(captured[0], data)) {
 			viol("sig:callback-bytes:debsign", "the signing callback received %d call(s), first %d bytes; the verifier's bytes are the %d bytes of the three members as stored", len(captured), firstLen(captured), len(data))
 		}
 	case "dpkg-sig":
@@ -779,7 +804,7 @@ func checkC10(env *engine.Env, ci any) engine.Outcome {
 		if seen != 3 {
 			viol("sig:manifest-lines:dpkg-sig", "manifest lists %d files, expected the 3 members", seen)
 		}
-		if c.Via == "signfn" {
+		if viaFn(c) {
 			// the clear-sign framing drops trailing blanks of a line: compare modulo those
 			norm := func(b []byte) string {
 				var ls []string
@@ -819,7 +844,7 @@ func checkC10(env *engine.Env, ci any) engine.Outcome {
 				viol("sig:wrong-key-id:rpm", "signature issued by key %s, configured key_id %s", got, key.keyID)
 			}
 		}
-		if c.Via == "signfn" && (len(captured) != 2 || !bytes.Equal(captured[0], r.Hdr.Raw) || !bytes.Equal(captured[1], full)) {
+		if viaFn(c) && (len(captured) != 2 || !bytes.Equal(captured[0], r.Hdr.Raw) || !bytes.Equal(captured[1], full)) {
 			viol("sig:callback-bytes:rpm", "the signing callback received %d call(s) (%v bytes); expected the header (%d) and header+payload (%d)", len(captured), lens(captured), len(r.Hdr.Raw), len(full))
 		}
 	case "apk":
@@ -828,7 +853,7 @@ func checkC10(env *engine.Env, ci any) engine.Outcome {
 			return out
 		}
 		pubFile := key.pub
-		if c.Via == "signfn" {
+		if viaFn(c) {
 			pubFile = "rsa_unprotected.pub"
 		}
 		pub, err := rsaPub(keyPath(env, pubFile))
@@ -849,7 +874,7 @@ func checkC10(env *engine.Env, ci any) engine.Outcome {
 				viol("sig:openssl-rejects:apk", "openssl dgst -sha1 -verify rejects the signature: %v", oerr)
 			}
 		}
-		if c.Via == "signfn" && (len(captured) != 1 || !bytes.Equal(captured[0], dg[:])) {
+		if viaFn(c) && (len(captured) != 1 || !bytes.Equal(captured[0], dg[:])) {
 			viol("sig:callback-bytes:apk", "the signing callback received %d call(s) of %v bytes; expected the SHA-1 of the control segment", len(captured), lens(captured))
 		}
 	}
@@ -857,7 +882,7 @@ func checkC10(env *engine.Env, ci any) engine.Outcome {
 }
 
 func failClass(c C10Case) string {
-	if c.Via == "signfn" && c.FailJ >= 0 {
+	if viaFn(c) && c.FailJ >= 0 {
 		return "callback-fails"
 	}
 	if c.SigType != "" {
